@@ -585,12 +585,15 @@ Definition taint_step (c : cfg) (s : st) (o : op) (orc : list N) (s' : st) (t : 
               else
                 high (s_sendq s <? s_maxsend s)%Z (if is_out_ty (r_ty r) then collided [r_uid r] t2 else t2)
             else if ty =? T_PUBACK then
-              if r_ty r =? T_PUBREC then rlost true (high (s_sendq s <? s_maxsend s)%Z (crossed [pid] t2)) else t2
+              if r_ty r =? T_PUBREC then rlost true (high (s_sendq s <? s_maxsend s)%Z (crossed [pid] t2))
+              else if (r_expiry r <? 0)%Z then high (s_sendq s <? s_maxsend s)%Z t2   (* "acknowledges" a message never sent *)
+              else t2
             else if ty =? T_PUBREC then
               let t3 := if r_ty r =? T_PUBREC then rlost true (crossed [pid] t2) else t2 in
               if (128 <=? rc) || negb (pubrec_rc_valid rc) then lost (is_out_ty (r_ty r)) t3
               else {| t_marked := t_marked t3; t_collided := t_collided t3; t_crossed := t_crossed t3;
-                      t_recvq_low := t_recvq_low t3 || (0 <? s_recvq s)%Z; t_sendq_high := t_sendq_high t3;
+                      t_recvq_low := t_recvq_low t3 || (0 <? s_recvq s)%Z;
+                      t_sendq_high := t_sendq_high t3 || (r_expiry r <? 0)%Z;   (* a held-back message becomes a counted PUBREL *)
                       t_sendq_lost := t_sendq_lost t3; t_resumed := t_resumed t3; t_recvq_lost := t_recvq_lost t3; t_refused := t_refused t3 |}
             else if ty =? T_PUBCOMP then
               if r_ty r =? T_PUBREC then high (s_sendq s <? s_maxsend s)%Z (crossed [pid] t2)
@@ -773,6 +776,35 @@ Definition nontrivial_for (prop : N) (h : list (op * obs)) : bool :=
 Definition clause_tag (prop : N) (vi : viol) : bytes :=
   tag "clause" ++ [48 + vi_clause vi].
 
+(* correspondence only: where does the model first disagree with the broker? *)
+Fixpoint first_disagree (c : cfg) (s : st) (h : list (op * obs)) (n : N) : option N :=
+  match h with
+  | [] => None
+  | (o, ob) :: r =>
+      let orc := orc_for s o ob in
+      let '(s', outs) := step c s o orc in
+      let v5 := match o with Reconnect b _ _ _ => b | _ => s_v5 s end in
+      if obs_agree v5 (obs_of_model s' outs) ob then first_disagree c s' r (n + 1) else Some n
+  end.
+
+(* the model's own observations along the observed operations (oracles taken from the observation) *)
+Fixpoint model_along (c : cfg) (s : st) (h : list (op * obs)) : list (op * obs) :=
+  match h with
+  | [] => []
+  | (o, ob) :: r =>
+      let '(s', outs) := step c s o (orc_for s o ob) in (o, obs_of_model s' outs) :: model_along c s' r
+  end.
+
+(* Implementation and model differ although the observation satisfies the specification: if the first difference is
+   exactly the step at which the MODEL's behaviour violates the specification as a listed finding, that finding no
+   longer reproduces on the code under test (it was repaired) - no alarm, the name is reported; otherwise the
+   correspondence is broken. *)
+Definition repaired_finding (prop : N) (c : cfg) (h : list (op * obs)) : option bytes :=
+  match first_disagree c init_st h 0, rs_viol (replay prop c init_st view0 taint0 (model_along c init_st h) 0 true) with
+  | Some n, Some (_, Some kf, m) => if N.of_nat m =? n then Some kf else None
+  | _, _ => None
+  end.
+
 Definition qos_engine (prop : N) (v : val) : val :=
   match v with
   | VL [cv; VL steps] =>
@@ -783,7 +815,11 @@ Definition qos_engine (prop : N) (v : val) : val :=
           match rs_viol r with
           | Some (vi, Some kf, n) => verdict 3 (clause_tag prop vi) nt [VB kf; VN (N.of_nat n); VN (vi_uid vi); VN (vi_pid vi)]
           | Some (vi, None, n) => verdict 1 (clause_tag prop vi) nt [VN (N.of_nat n); VN (vi_uid vi); VN (vi_pid vi); VN (vi_aux vi)]
-          | None => if rs_agree r then verdict 0 (tag "ok") nt [] else verdict 2 (tag "model") nt []
+          | None => if rs_agree r then verdict 0 (tag "ok") nt []
+                    else match repaired_finding prop c h with
+                         | Some kf => verdict 0 (tag "finding-not-reproduced") nt [VB kf]
+                         | None => verdict 2 (tag "model") nt []
+                         end
           end
       | _, _ => bad_case
       end
@@ -800,16 +836,6 @@ Definition qos10_engine (v : val) : val := qos_engine 10 v.
 Definition qos11_engine (v : val) : val := qos_engine 11 v.
 (* ENGINE qos12 Session.QosSpecs.qos12_engine *)
 Definition qos12_engine (v : val) : val := qos_engine 12 v.
-(* correspondence only: where does the model first disagree with the broker? *)
-Fixpoint first_disagree (c : cfg) (s : st) (h : list (op * obs)) (n : N) : option N :=
-  match h with
-  | [] => None
-  | (o, ob) :: r =>
-      let orc := orc_for s o ob in
-      let '(s', outs) := step c s o orc in
-      let v5 := match o with Reconnect b _ _ _ => b | _ => s_v5 s end in
-      if obs_agree v5 (obs_of_model s' outs) ob then first_disagree c s' r (n + 1) else Some n
-  end.
 (* ENGINE qosmodel Session.QosSpecs.qosmodel_engine *)
 Definition qosmodel_engine (v : val) : val :=
   match v with
